@@ -51,7 +51,19 @@ func bip66String(r *gen.Rng) ([]byte, string) {
 		return out
 	}
 	total := 4 + len(R) + len(S)
-	switch r.Intn(16) {
+	switch r.Intn(18) {
+	case 16, 17:
+		// cut anywhere, then the outer length is made consistent with what is left (so the first
+		// length test passes and the inner fields point past the end); the last byte that is left
+		// is often a boundary value - it may be a length octet now
+		b := build(0x30, total, 0x02, len(R), 0x02, len(S), r.Bool())
+		k := 2 + r.Intn(len(b)-1)
+		b = b[:k]
+		b[1] = byte(k - 3)
+		if r.Bool() {
+			b[k-1] = gen.Pick(r, byte(0x00), 0x01, 0x7f, 0x80, 0x81, 0xff, 0xff, byte(k), byte(k-1))
+		}
+		return b, "truncated-outer-length-consistent"
 	case 0, 1, 2, 3, 4:
 		return build(0x30, total, 0x02, len(R), 0x02, len(S), true), "well-formed-envelope"
 	case 5:
@@ -450,6 +462,31 @@ func runC12(r *mon.Run) {
 		}
 	})
 	// every length 0..80 with almost-valid content
+	// every S-length octet with 0..2 bytes of S present, outer length consistent with the string
+	r.Each("c12/bip66-cut", 5*256*3, func(w *mon.W, i int) {
+		lr := []int{1, 2, 31, 32, 33}[i%5]
+		sl := byte((i / 5) % 256)
+		present := i / (5 * 256)
+		R := w.Rng.Bytes(lr)
+		R[0] = R[0]&0x7f | 1
+		data := append([]byte{0x30, 0, 0x02, byte(lr)}, R...)
+		data = append(data, 0x02, sl)
+		data = append(data, w.Rng.Bytes(present)...)
+		if present > 0 {
+			data[len(data)-present] = data[len(data)-present]&0x7f | 1
+		}
+		data[1] = byte(len(data) - 3)
+		want := oracle.BIP66Valid(data)
+		if want {
+			w.Class("c12:bip66:accept")
+		} else {
+			w.Class("c12:bip66:reject")
+		}
+		w.Case(true, []byte("bip66cut"), data)
+		if g := bitcoin.IsValidSignatureEncodingBIP0066(data); g != want {
+			w.Fail("c12/BIP0066/cut", fmt.Sprintf("IsValidSignatureEncodingBIP0066(%x) = %v, BIP-66 grammar says %v", data, g, want), "data", data)
+		}
+	})
 	r.Each("c12/bip66-lengths", 81*r.N(40, 2000), func(w *mon.W, i int) {
 		rng := w.Rng
 		l := i % 81
